@@ -124,9 +124,13 @@ def site_schema(rng, site):
             lit = "x"
         return rng.choice([{"const": lit}, {"enum": [lit, 1]}])
     if site == "model_keys":
-        return {"type": "object", "title": "Host", "properties": {"a": {"type": "string"}},
-                "additionalProperties": rng.choice([True, {"type": "integer"}]),
-                "patternProperties": {"^_": {}}}
+        out = {"type": "object", "title": "Host", "properties": {"a": {"type": "string"}},
+               "additionalProperties": rng.choice([True, {"type": "integer"}, False, False]),
+               "patternProperties": {"^_": {}}}
+        if rng.random() < 0.3:
+            out.pop("type")
+            out.pop("title")
+        return out
     if site == "items_deep":
         return {"items": {"items": {"items": {}}}}
     if site == "properties_deep":
@@ -175,7 +179,8 @@ def value_for_site(rng, site):
         return gv.hostile_value(rng, 1)
     if site in ("propertyNames", "model_keys", "dependencies", "properties_deep"):
         keys = ["a", "b", "", "\x00", "\ud800", "__class__", "__dict__", "__weakref__", "_dict", "class",
-                "é", "a" * 1000, "1", "default", "properties", "_x", "__init__", "a\x00b", "\U0001F600"]
+                "é", "a" * 1000, "1", "default", "properties", "_x", "__init__", "a\x00b", "\U0001F600",
+                "{}", "{a}", "{", "}", "{0}", "{properties}", "%s", "%(x)s", "{!r}", "{a.b}", "{a[0]}", "\\", "'", '"']
         out = {rng.choice(keys): gv.hostile_value(rng, 1) for _ in range(rng.randint(0, 4))}
         if site == "properties_deep" and rng.random() < 0.5:
             out = {"a": {"a": out}}
